@@ -99,9 +99,17 @@ GuardsQ(rs, e, tags) ==      \* evaluated AFTER the operation was applied
      RG("count", tags, e.count = Len(rs.live)),
      RG("to_slice", tags, Bag(e.slice) = Bag(SliceOf(rs.live)))}
 
+\* constructor runs while the matrix is taken (one fresh scope, every identity and every group resolved once): singletons
+\* exist since Build, a scoped registration runs once for the scope however many identities it provides
+RunsOK(live, e) ==
+    \A it \in DOMAIN e.mruns :
+        LET lifes == {live[i].life : i \in {j \in DOMAIN live : live[j].item = it}} IN
+        /\ "singleton" \notin lifes
+        /\ ("scoped" \in lifes => e.mruns[it] = 1)
 MatrixOK(live, e) ==
     /\ Range(e.resolvable) = ResolvableSet(live)
     /\ \A t \in QTypes : e.groups[t] = GroupSize(live, t, "g")
+    /\ RunsOK(live, e)
 
 GuardsBuilt(rs, e, tags) ==   \* evaluated before the snapshot is appended; rs.live is what was built
     {RG("build_ok", tags, e.err = <<>>),
